@@ -1,6 +1,7 @@
 //! C07: alpha-aware resizing ignores the colour of fully transparent pixels.
 use firv::content::*;
 use firv::exec::*;
+use firv::fr;
 use firv::gen::*;
 use firv::px::*;
 use firv::rng::Rng;
@@ -155,6 +156,30 @@ fn exec<P: Px>(c: &RCase, stats: &mut Stats, viols: &mut Vec<Viol>) {
             viols.push(
                 Viol::new("alpha_channel_differs_from_plain_resampling", format!("{}: pixel {}: alpha-on {:?} alpha-off {:?}", ext.name(), i, a[i], off[i])).sig(sig("iv", ext)),
             );
+        }
+        // (vi) composition: alpha-aware resizing is exactly multiply_alpha -> plain resize -> divide_alpha
+        //      (same back-end, same operations in the same order, so bit-identical)
+        {
+            let mut md = fr::MulDiv::new();
+            unsafe { md.set_cpu_extensions(ext.to_fr()) };
+            let mut pre = src.clone();
+            {
+                let mut img = fr::images::TypedImage::<P>::from_pixels_slice(c.sw, c.sh, &mut pre).unwrap();
+                md.multiply_alpha_inplace_typed(&mut img).unwrap();
+            }
+            if let Ok(mut comp) = resize_vec::<P>(&pre, c.sw, c.sh, c.dw, c.dh, &opts_off, ext) {
+                {
+                    let mut img = fr::images::TypedImage::<P>::from_pixels_slice(c.dw, c.dh, &mut comp).unwrap();
+                    md.divide_alpha_inplace_typed(&mut img).unwrap();
+                }
+                stats.count("composition_checks", 1);
+                let cc = P::components(&comp);
+                if let Some(i) = (0..n * nc).find(|&i| !same_value(ac[i], cc[i])) {
+                    viols.push(
+                        Viol::new("not_multiply_resize_divide", format!("{}: pixel {} comp {}: alpha-aware resize {:?}, multiply->resize->divide {:?}", ext.name(), i / nc, i % nc, ac[i], cc[i])).sig(sig("vi", ext)),
+                    );
+                }
+            }
         }
         // (iii) opaque source: same as alpha handling disabled
         if opaque {
